@@ -85,6 +85,11 @@ def run_impl(case):
     t, e = s.eer()
     out = {"t": enc(float(t)), "e": enc(float(e)), "fpr": enc(float(s.fpr(t))), "fnr": enc(float(s.fnr(t))),
            "hard": [enc(float(s.hard_pos_ratio)), enc(float(s.hard_neg_ratio))]}
+    # hypotheses of the two FNR-side theorems (evidence only): is the returned threshold the FNR-side threshold for e
+    # (exact root), and if not, does a scored positive separate the two (C06_fnr_side_same_gap_partial)
+    tf = s.threshold_at_fnr(e)
+    out["exact_root"] = bool(float(tf) == float(t))
+    out["same_gap"] = bool(int(s.cm(t).fn()) == int(s.cm(tf).fn()))
     if "a" in case:
         a, b = fl(case["a"]), fl(case["b"])
         t2, e2 = Scores(a * pos.astype(float) + b, a * neg.astype(float) + b, **kw).eer()
@@ -159,7 +164,8 @@ def nontrivial(case, res):
 
 
 def distribution(cases, results):
-    d = {"n": len(cases), "kind": {}, "exact_stream": 0, "cfg": {}, "with_easy": 0, "errors": 0, "eer_zero": 0, "eer_at_cap": 0}
+    d = {"n": len(cases), "kind": {}, "exact_stream": 0, "cfg": {}, "with_easy": 0, "errors": 0, "eer_zero": 0, "eer_at_cap": 0,
+         "fnr_theorem_hypothesis": {"exact_root": 0, "same_gap_only": 0, "separated": 0}}
     for c, r in zip(cases, results):
         d["kind"][c.get("kind", "?")] = d["kind"].get(c.get("kind", "?"), 0) + 1
         d["exact_stream"] += bool(c.get("exact"))
@@ -171,4 +177,6 @@ def distribution(cases, results):
             d["eer_zero"] += F(r["ok"]["e"]) == 0
             hp, hn = (F(x) for x in r["ok"]["hard"])
             d["eer_at_cap"] += F(r["ok"]["e"]) == min(hp, hn)
+            h = d["fnr_theorem_hypothesis"]
+            h["exact_root" if r["ok"].get("exact_root") else ("same_gap_only" if r["ok"].get("same_gap") else "separated")] += 1
     return d
